@@ -356,7 +356,11 @@ Record qparams := {
   qp_mws : Q; qp_mwl : Q; qp_mid : Q;
   qp_tol : Q;               (* allowance for the f32 evaluation of the criterion *)
   qp_ncls : nat;
-  qp_le : bool              (* comparison used by prediction: false `<`, true `<=` *)
+  qp_le : bool;             (* comparison used by prediction: false `<`, true `<=` *)
+  qp_wslack : Q;            (* rounding allowance of the f32 running weight sums, relative to the weight
+                               of the node: 0 when all sums are exact (unit / dyadic sample weights),
+                               n * 2^-23 for n samples otherwise (C14/Corr.v [wslack]) *)
+  qp_nfeat : nat            (* number of features: split features must lie below it *)
 }.
 
 Definition qfeat (s : qsample) (f : nat) : Q := nth f (qs_x s) 0%Q.
@@ -437,26 +441,32 @@ Definition dec_check (cr : criterion) (tol : Q) (k : nat) (smp SL SR : list qsam
   end.
 
 (** [chk_node P cr S depth t]: bit mask of the violated conjuncts (0 = all hold) for the
-    subtree [t] reached by the training samples [S]; [cr] is the criterion the tree was fitted with. *)
+    subtree [t] reached by the training samples [S]; [cr] is the criterion the tree was fitted with.
+    The weight limits (bit 8) and the leaf majority (bit 128) compare EXACT rational weights; the code
+    under test compares f32 running sums, which differ from the exact sums by at most
+    [qp_wslack P] times the weight of the node: that much is allowed (nothing when the sums are exact). *)
 Fixpoint chk_node (P : qparams) (gc : criterion) (smp : list qsample) (depth : nat) (t : tree Q) : N :=
   match t with
   | Leaf d p =>
       N.lor (flag (Nat.eqb d depth) 1)
      (N.lor (flag (depth_ok (qp_maxdepth P) depth) 2)
             (flag (existsb (fun s => Nat.eqb (qs_y s) p) smp
-                   && forallb (fun c => Qleb (qwfreq smp c) (qwfreq smp p)) (seq 0 (qp_ncls P))) 128))
+                   && forallb (fun c => Qleb (qwfreq smp c) (qwfreq smp p + qp_wslack P * qweight smp)%Q)
+                              (seq 0 (qp_ncls P))) 128))
   | Node d f thr dec l r =>
       let SL := qleft (qp_le P) f thr smp in
       let SR := qright (qp_le P) f thr smp in
       N.lor (flag (Nat.eqb d depth) 1)
      (N.lor (flag (depth_ok (qp_maxdepth P) depth) 2)
      (N.lor (flag (Qleb (qp_mws P) (inject_Z (Z.of_nat (length smp)))) 4)
-     (N.lor (flag (Qleb (qp_mwl P) (qweight SL) && Qleb (qp_mwl P) (qweight SR)
+     (N.lor (flag (Nat.ltb f (qp_nfeat P)) 4096)
+     (N.lor (flag (Qleb (qp_mwl P) (qweight SL + qp_wslack P * qweight smp)%Q
+                   && Qleb (qp_mwl P) (qweight SR + qp_wslack P * qweight smp)%Q
                    && Qltb 0 (qweight SL) && Qltb 0 (qweight SR)) 8)
      (N.lor (flag (forallb (fun s => Bool.eqb (qgoes_left (qp_le P) (qfeat s f) thr) (Qleb (qfeat s f) thr)) smp) 16)
      (N.lor (flag (dec_check gc (qp_tol P) (qp_ncls P) smp SL SR dec) 32)
      (N.lor (flag (Qleb (qp_mid P) dec) 64)
-     (N.lor (chk_node P gc SL (S depth) l) (chk_node P gc SR (S depth) r))))))))
+     (N.lor (chk_node P gc SL (S depth) l) (chk_node P gc SR (S depth) r)))))))))
   end.
 
 (** reported importances: non-negative and summing to one (within [tol]) when the tree has a split *)
@@ -467,7 +477,8 @@ Definition chk_importance (tol : Q) (has_split : bool) (imps : list Q) : bool :=
 (** whole-tree checker: labels in range, weights non-negative, the node conjuncts from the root
     (depth 0, all samples), pruning, importances *)
 Definition chk_tree (P : qparams) (gc : criterion) (itol : Q) (smp : list qsample) (t : tree Q) (imps : list Q) : N :=
-  N.lor (flag (forallb (fun s => Nat.ltb (qs_y s) (qp_ncls P) && Qleb 0 (qs_w s)) smp) 8192)
+  N.lor (flag (forallb (fun s => Nat.ltb (qs_y s) (qp_ncls P) && Qleb 0 (qs_w s)) smp
+               && Qleb 0 (qp_wslack P)) 8192)
  (N.lor (chk_node P gc smp 0 t)
  (N.lor (flag (chk_importance itol (negb (is_leaf t)) imps) 256)
         (flag (pruned t) 512))).
